@@ -539,6 +539,22 @@ func c15SendJoin(c *mon.Ctx, r *gen.Rand, sc *simScenario, b *simBranch) {
 		eventID := ev.EventID()
 		if !vec[3] {
 			eventID = fakeEventID(r, s.t)
+			if s.t.EventFormat != 1 && r.Chance(0.5) {
+				// the requester's choice of ID also written into the event, whose content was touched after hashing (the
+				// event then counts as its redacted form; its ID is still its reference hash, not what it says)
+				tv := ref.MustParse(evJSON)
+				tv.Set("event_id", ref.S(eventID))
+				if cv := tv.Get("content"); cv != nil && cv.K == ref.Obj {
+					cv.Set("zz_added_after_hashing", ref.I(1))
+				}
+				// ... and signed by the requesting server as it stands, the member included (its signature is its own to make)
+				tv.Del("signatures")
+				rd := ref.Redact(s.t.Redaction, tv)
+				rd.Del("unsigned")
+				sig := ed25519.Sign(signer.Priv, ref.Canon(rd))
+				tv.Set("signatures", ref.O("other.example", ref.O(signer.KeyID, ref.S(base64.RawStdEncoding.EncodeToString(sig)))))
+				evJSON = gen.Plain().Bytes(tv)
+			}
 		}
 		origin := spec.ServerName("other.example")
 		if !vec[4] {
